@@ -263,15 +263,29 @@ static void cmd(std::istringstream& is) {
         std::vector<char*> argv;
         for (auto& s : toks) argv.push_back((char*)s.c_str());
         bool ok;
-        I.exception_string = "";
-        int saved = dup(2); // Instance::eval prints errors on stderr
-        FILE* nul = fopen("/dev/null", "w"); if (nul) { fflush(stderr); dup2(fileno(nul), 2); }
+        // Instance::eval prints its error on stderr: capture the text (the REPL shows it to the user); nothing is reset before the
+        // call, exactly as the exec command of the REPL does
+        int saved = dup(2);
+        FILE* cap = tmpfile(); if (cap) { fflush(stderr); dup2(fileno(cap), 2); }
+        bool threw_here = false;
         try { ok = I.eval(argv.size(), argv.data()); }
-        catch (const std::exception& ex) { ok = false; I.exception_string = ex.what(); }
-        if (nul) { fflush(stderr); dup2(saved, 2); fclose(nul); } close(saved);
-        std::string tk = ",\"toks\":[";
+        catch (const std::exception& ex) { ok = false; threw_here = true; I.exception_string = ex.what(); }
+        std::string errtext;
+        if (cap) {
+            fflush(stderr); dup2(saved, 2);
+            rewind(cap); char buf[2048]; size_t n;
+            while ((n = fread(buf, 1, sizeof buf, cap)) > 0) errtext.append(buf, n);
+            fclose(cap);
+        }
+        close(saved);
+        if (errtext.size() > 400) errtext.resize(400);
+        std::string tk = ",\"errtext\":" + jstr(errtext) + ",\"toks\":[";
         for (size_t i = 0; i < toks.size(); i++) tk += (i ? "," : "") + jstr(toks[i]);
+        // the error label of this exec is the script error it set; an exception text left over from an earlier step is not this exec's
+        std::string keep = I.exception_string;
+        if (!threw_here) I.exception_string = "";
         dump_state("Exec", ok, tk + "]");
+        I.exception_string = keep;
     } else {
         printf("{\"e\":\"BadCmd\"}\n");
     }
